@@ -90,8 +90,8 @@ func runRx(c rxCase) *vh.Failure {
 				switch o.K {
 				case "bytes":
 					got, err = q.Bytes(n)
-					if len(got) != n {
-						return fail("C15/bytes-length", "Bytes(%d) returned %d bytes", n, len(got))
+					if err == nil && len(got) != n {
+						return fail("C15/bytes-length", "Bytes(%d) returned %d bytes without error", n, len(got))
 					}
 				case "string":
 					var s string
